@@ -73,10 +73,11 @@ def parse_strerror(body, param):
     guards = []
     # leading guards:  if (errnum OP CONST) return "str";
     while True:
-        m = re.match(r"\s*if\s*\(\s*" + param + r"\s*(>=|>|<=|<|==)\s*([A-Za-z_0-9]+)\s*\)\s*return\s+((?:" + STR + r"\s*)+);", toks)
+        m = re.match(r"\s*if\s*\(\s*" + param + r"\s*(>=|>|<=|<|==)\s*([A-Za-z_0-9]+)\s*(?:([+-])\s*(\d+)\s*)?\)\s*return\s+((?:" + STR + r"\s*)+);", toks)
         if not m:
             break
-        guards.append((m.group(1), m.group(2), "".join(c_unescape(x) for x in re.findall(STR, m.group(3)))))
+        bound = m.group(2) if not m.group(3) else "(%s %s %s)" % (m.group(2), m.group(3), m.group(4))
+        guards.append((m.group(1), bound, "".join(c_unescape(x) for x in re.findall(STR, m.group(5)))))
         toks = toks[m.end():]
     m = re.match(r"\s*switch\s*\(\s*" + param + r"\s*\)\s*\{(.*)\}\s*$", toks, flags=re.S)
     if not m:
@@ -157,7 +158,9 @@ def coq_string(s):
     return '"%s"' % s.replace('"', '""')
 
 
-def main():
+def main(need_strerror=True):
+    """need_strerror=False (C17): only the shape of imb_set_errno / imb_get_errno and the mirror's storage class matter;
+    an imb_get_strerror body this translator cannot read then yields an empty table instead of an error"""
     cpath = os.path.join(common.REPO, "lib", "x86_64", "error.c")
     hpath = os.path.join(common.REPO, "lib", "include", "error.h")
     src = strip_comments(open(cpath).read())
@@ -166,7 +169,12 @@ def main():
     pm = re.match(r"\s*(?:const\s+)?int\s+([A-Za-z_0-9]+)\s*$", params)
     if not pm:
         raise T9Error("imb_get_strerror: unexpected parameter list %r" % params)
-    guards, cases, default = parse_strerror(body, pm.group(1))
+    try:
+        guards, cases, default = parse_strerror(body, pm.group(1))
+    except T9Error:
+        if need_strerror:
+            raise
+        guards, cases, default = [], [], None
     check_set_errno(hdr)
     check_get_errno(src)
     mirror_decl = re.search(r"IMB_DLL_LOCAL\s+volatile\s+((?:__thread|_Thread_local|thread_local)\s+)?int\s+imb_errno\s*;", src)
